@@ -34,6 +34,6 @@ def check(run, views, tier):
         run.floor("R-MAPKEY", nk, 3, "attribute map inserts")
         from . import c09
         saved = (run.explanation, run.trusted, run.not_decided)
-        c09.check(run, {cfg: crates}, tier)
+        c09.check(run, {cfg: crates}, tier, with_ops=False)
         run.explanation, run.trusted, run.not_decided = saved
         run.cfg = cfg
